@@ -746,12 +746,20 @@ def h_annotate_states_delivery(eng):
     eng.prove("deliver.recursion_keeps_the_listener", z3.BoolVal(all(c[2] is lst for c in rec_calls)))
 
 
-HARNESSES = [("Generator.exitClass", h_exit_class), ("Generator._ast_symbols_to_variables", h_symbols_to_variables),
+def h_flattener_strips_nested_causality(eng):
+    """tree.flatten_symbols: `input` / `output` survive on top-level variables only, whatever the kind of the variable's type
+    (elementary, or a type derived from one); every other prefix is kept.  Generator.exitClass takes "top-level input" from these
+    prefix lists.  (C07's contract of the flattening step.)"""
+    from contracts import C07
+    C07.h_flatten_symbols_step(eng)
+
+
+HARNESSES = [("tree.flatten_symbols: input/output only at top level", h_flattener_strips_nested_causality), ("Generator.exitClass", h_exit_class), ("Generator._ast_symbols_to_variables", h_symbols_to_variables),
              ("StateAnnotator", h_state_annotator), ("instances own their prefix lists (deepcopy of ast.Symbol, then the real annotator)", h_instances_own_their_prefix_lists),
              ("Generator.exitClass over the real _ast_symbols_to_variables, arbitrary derivative cache", h_exit_class_composed),
              ("Generator.get_derivative: constants, variables, indexed variables", h_get_derivative),
              ("annotate_states / TreeWalker.walk / handle_walk / skip_child: every node is delivered, bracketed", h_annotate_states_delivery)]
-EXPECTED_COVER = {"class.done", "vars.done", "annot.enterExpression", "annot.exitExpression", "annot.exitComponentRef", "own.copied", "composed.done", "der.constant", "der.symbol", "der.indexed",
+EXPECTED_COVER = {"step.nested", "step.top", "class.done", "vars.done", "annot.enterExpression", "annot.exitExpression", "annot.exitComponentRef", "own.copied", "composed.done", "der.constant", "der.symbol", "der.indexed",
                   "deliver.start", "deliver.skip", "deliver.walk", "deliver.handle"}
 BOUNDED = True
 LEVEL = "proof"
